@@ -681,7 +681,7 @@ func c17Settings(thorough bool) []c17Setting {
 func c17Tables(c *mc.Check) {
 	specs := c17Specs(c.Thorough())
 	settings := c17Settings(c.Thorough())
-	f := c.Family("collections-x-settings", fmt.Sprintf("%d collections (1–3 configurations × 5 benchmark layouts with repeats, gaps and different orders × 5 unit sets incl. MB/s, x-MB/s and x-ns/op × pairs of value patterns %v × 4 scalings) × %d settings (test ∈ {default,U,T,none} × alpha ∈ {0→0.05, 0.05, 0.5, 1} × order ∈ {none, name, delta, reversed} × geomean × grouping): per key the retained values = those within 1.5 IQR of the exact R8 quartiles in input order, min ≤ mean ≤ max of those; delta shown ⇔ p < alpha, = (new/old−1)·100, direction by metric (only speed ⇒ higher is better), '~' + reason or p and retained sizes otherwise; tables in unit order, rows in first-appearance order or stably sorted; geomean over non-zero means; Tables() twice reports the same; non-trivial = collections with ≥2 configurations", len(specs), len(settings), c17PatternNames), c17Replay)
+	f := c.Family("collections-x-settings", fmt.Sprintf("%d collections (1–3 configurations × 5 benchmark layouts with repeats, gaps and different orders × 5 unit sets incl. MB/s, x-MB/s and x-ns/op × pairs of value patterns %v × 4 scalings) × %d settings (test ∈ {default,U,T,none} × alpha ∈ {0→0.05, 0.05, 0.5, 1} × order ∈ {none, name, delta, reversed} × geomean × grouping): per key the retained values = those within 1.5 IQR of the exact R8 quartiles in input order, min ≤ mean ≤ max of those; delta shown ⇔ p < alpha, = (new/old−1)·100, direction by metric (only speed ⇒ higher is better), '~' + reason or p and retained sizes otherwise; tables in unit order, rows in first-appearance order or stably sorted; geomean over non-zero means; Tables() twice reports the same; non-trivial = collections with ≥2 configurations", len(specs), c17PatternNames, len(settings)), c17Replay)
 	if c.Replaying() {
 		return
 	}
